@@ -79,6 +79,16 @@ def build_value(np, geo, axis, upper, tshape, vk, which, t):
     if vk == "scalar":
         c = coef(which, (), ())
         return c, lambda j, tau: c
+    if vk == "int":  # a python int (not a float)
+        return 2, lambda j, tau: 2.0
+    if vk == "face_int":  # integer-typed per-face array
+        if not bshape:
+            return None
+        arr = np.empty(tshape + bshape, dtype=np.int64)
+        for tau in np.ndindex(*tshape):
+            for j in np.ndindex(*bshape):
+                arr[tau + j] = 1 + sum((k + 1) * jk for k, jk in enumerate(j)) + sum(tau)
+        return arr, lambda j, tau: float(1 + sum((k + 1) * jk for k, jk in enumerate(j)) + sum(tau))
     if vk == "tensor":
         if not tshape:
             return None
@@ -276,7 +286,7 @@ def bc_case(case):
         return {"nt": False, "ref": f"{type(e).__name__}: rank{rank} {tname} {vk}/{bk}", "out": "refused at construction"}
 
     one_cell_curv = base == "curvature" and geo["shape"][axis] < 2
-    mixed_kinds_differ = base == "mixed" and bk != vk and "tensor_face" in (vk, bk) and len(tshape) > 0
+    mixed_kinds_differ = base == "mixed" and bk != vk and ("tensor_face" in (vk, bk) or "face_int" in (vk, bk)) and len(tshape) > 0
     for route in ("field", "bcs", "setter"):
         for label, u in inputs(np, geo, rank, seed):
             if route == "field" and label not in ("zero", "generic"):
@@ -493,14 +503,14 @@ def format_case(case):
 def type_names(rank):
     names = []
     if rank == 0:
-        names += [(b, vk, bk) for b in BASES for vk in ("zero", "scalar", "tensor_face", "expr") for bk in _bks(b, vk)]
+        names += [(b, vk, bk) for b in BASES for vk in ("zero", "scalar", "int", "face_int", "tensor_face", "expr") for bk in _bks(b, vk)]
         for b in ("value_expression", "derivative_expression", "mixed_expression", "virtual_point"):
             for vk in ("zero", "scalar", "expr", "expr_t"):
                 for bk in (("zero", "scalar", "expr_t") if b == "mixed_expression" else ("zero",)):
                     names.append((b, vk, bk))
     else:
         for b in BASES:
-            for vk in ("zero", "scalar", "tensor", "tensor_face"):
+            for vk in ("zero", "scalar", "int", "tensor", "tensor_face", "face_int"):
                 for bk in _bks(b, vk):
                     names.append((b, vk, bk))
             for vk in ("zero", "scalar", "tensor", "tensor_face", "expr"):
